@@ -27,6 +27,11 @@ type Solver struct {
 	Queries int
 	Errors  []string
 	LastReason string
+	lines   chan string
+	Dead    bool
+	hardTimeout time.Duration
+	kind    string
+	timeoutMs int
 	Time    time.Duration
 }
 
@@ -60,6 +65,22 @@ func NewSolver(kind string, timeoutMs int, log io.Writer) (*Solver, error) {
 		return nil, err
 	}
 	s := &Solver{name: kind, cmd: cmd, in: in, out: bufio.NewReaderSize(outp, 1<<20), log: log}
+	s.hardTimeout = time.Duration(timeoutMs)*time.Millisecond + 10*time.Second
+	s.kind, s.timeoutMs = kind, timeoutMs
+	s.lines = make(chan string, 1<<16)
+	go func() {
+		// drain the solver's output continuously so that a burst of (error ...) lines can never block it
+		for {
+			line, err := s.out.ReadString('\n')
+			if line != "" {
+				s.lines <- line
+			}
+			if err != nil {
+				close(s.lines)
+				return
+			}
+		}
+	}()
 	s.scopes = []*scope{{declared: map[string]bool{}, defined: map[int]string{}}}
 	if kind == "cvc5" {
 		s.send("(set-logic ALL)")
@@ -79,6 +100,9 @@ func (s *Solver) Close() {
 }
 
 func (s *Solver) send(line string) {
+	if s.Dead {
+		return
+	}
 	if s.log != nil {
 		fmt.Fprintln(s.log, line)
 	}
@@ -186,9 +210,25 @@ func (s *Solver) Check() string {
 	s.send("(check-sat)")
 	res := "unknown"
 	for {
-		line, err := s.out.ReadString('\n')
-		if err != nil {
-			s.Errors = append(s.Errors, "solver died: "+err.Error())
+		var line string
+		var ok bool
+		if s.Dead {
+			res = "unknown"
+			break
+		}
+		select {
+		case line, ok = <-s.lines:
+		case <-time.After(s.hardTimeout):
+			// the solver ignores its soft timeout (typically while bit-blasting): kill it; the path is inconclusive
+			s.Dead = true
+			s.LastReason = "hard timeout: solver killed"
+			s.cmd.Process.Kill()
+			ok = true
+			line = "unknown"
+		}
+		if !ok {
+			s.Errors = append(s.Errors, "solver died")
+			s.Dead = true
 			res = "unknown"
 			break
 		}
@@ -208,7 +248,7 @@ func (s *Solver) Check() string {
 			continue
 		}
 	}
-	if res == "unknown" && len(s.Errors) == 0 && s.cmd != nil {
+	if res == "unknown" && len(s.Errors) == 0 && s.cmd != nil && !s.Dead {
 		s.send("(get-info :reason-unknown)")
 		s.LastReason = strings.TrimSpace(s.readSexp())
 	}
@@ -248,33 +288,47 @@ func (s *Solver) readSexp() string {
 	depth := 0
 	started := false
 	inBar := false
+	inStr := false
 	for {
-		c, err := s.out.ReadByte()
-		if err != nil {
+		if s.Dead {
 			return sb.String()
 		}
-		sb.WriteByte(c)
-		if inBar {
-			if c == '|' {
-				inBar = false
-			}
-			continue
+		line, ok := <-s.lines
+		if !ok {
+			return sb.String()
 		}
-		switch c {
-		case '|':
-			inBar = true
-		case '(':
-			depth++
-			started = true
-		case ')':
-			depth--
-			if started && depth == 0 {
-				return sb.String()
+		sb.WriteString(line)
+		for i := 0; i < len(line); i++ {
+			c := line[i]
+			if inBar {
+				if c == '|' {
+					inBar = false
+				}
+				continue
 			}
-		case '\n':
-			if !started && strings.TrimSpace(sb.String()) != "" {
-				return sb.String()
+			if inStr {
+				if c == '"' {
+					inStr = false
+				}
+				continue
 			}
+			switch c {
+			case '|':
+				inBar = true
+			case '"':
+				inStr = true
+			case '(':
+				depth++
+				started = true
+			case ')':
+				depth--
+			}
+		}
+		if started && depth <= 0 {
+			return sb.String()
+		}
+		if !started && strings.TrimSpace(sb.String()) != "" {
+			return sb.String()
 		}
 	}
 }
